@@ -53,6 +53,8 @@ SPEC = {
         'roundtrip_vec_final', 'load_dmodel_final', 'isDbl_half', 'isDbl_one', 'isDbl_third',
         # consecutive loads on one stream: atomic each, failures sticky, sequences round-trip
         'loadOn_good', 'loadSeq_failed', 'loadSeq_length', 'loadSeq_atomic', 'loadSeq_sticky', 'loadSeq_roundtrip',
+        # finding C17-4 (writers inherit the caller's notation): witnesses on the model's printf %.17f
+        'isDbl_smallThird', 'fixed17_counterexample', 'fixed17_tiny_counterexample',
     ]],
     # obligations over the regenerated module AITB.Gen.IOPrec (re-proved against the source on every run)
     'gen_obligations': [_T + 'IOPrec_utils_ge_17', _T + 'IOPrec_pomdpPolicy', _T + 'IOPrec_commit_last'],
